@@ -36,30 +36,56 @@ def _is_oov_mask(v) -> bool:
 
 
 def _kernel_fingerprint(f):
-    """Order of the masking steps of a sequence-log-prob kernel, with locals abstracted by role."""
+    """What a sequence-log-prob kernel does, as dataflow facts (independent of how statements are split or joined):
+    the scores are log-softmaxed over the last axis; out-of-vocabulary tokens are found by the two range comparisons;
+    the gather index is the token tensor with those positions zeroed; the gathered scores are filled with a constant under a
+    mask that derives from the same comparisons; a sum follows the fill."""
+    from sa.astutil import oriented
     rd = ReachingDefs(f.node)
+    tok = f.params[1].name
+    calls = list(own_calls(f.node))
     steps = []
-    mask_names = set()
-    for n in sorted([x for x in own_nodes(f.node) if isinstance(x, ast.Assign)], key=lambda x: x.lineno):
-        v = n.value
-        s = u(v)
-        t = u(n.targets[0])
-        if _is_oov_mask(v):
-            steps.append("oov-mask=(hyp<0)|(hyp>=num_classes)")
-            mask_names.add(t)
-        elif isinstance(v, ast.Call) and call_name(v).endswith("log_softmax") and "-1" in s:
-            steps.append("log_softmax(-1)")
-        elif t == "hyp" and isinstance(v, ast.Call) and isinstance(v.func, ast.Attribute) and v.func.attr == "masked_fill" \
-                and u(v.args[0]) in mask_names and u(v.args[1]) == "0":
-            steps.append("index:=0 under mask")
-        elif isinstance(v, ast.Call) and ".gather(" in s and "hyp.unsqueeze(" in s:
-            steps.append("gather(hyp)")
-        elif isinstance(v, ast.Call) and isinstance(v.func, ast.Attribute) and v.func.attr == "masked_fill" \
-                and u(v.args[0]) in mask_names and t != "hyp":
-            steps.append(f"fill({u(v.args[1])})")
-        elif isinstance(v, ast.BinOp) and isinstance(v.op, ast.BitOr) and t in mask_names:
-            steps.append("mask|=len-mask")
-    red = [c.func.attr for c in own_calls(f.node) if isinstance(c.func, ast.Attribute) and c.func.attr in ("sum", "prod", "mean")
+    # log-softmax over the last axis
+    lsm = [c for c in calls if call_name(c).endswith("log_softmax") and "-1" in [u(a) for a in c.args[-1:]] + [u(k.value) for k in c.keywords]]
+    if lsm:
+        steps.append("log_softmax(-1)")
+    # the two out-of-vocabulary comparisons on the tokens
+    kinds = {}
+    for n in own_nodes(f.node):
+        if isinstance(n, ast.Compare):
+            o = oriented(n, lambda e: isinstance(e, ast.Name) and e.id == tok)
+            if o is not None:
+                if o[0] == "lt" and u(o[2]) == "0":
+                    kinds["negative"] = n
+                elif o[0] == "ge" and isinstance(o[2], ast.Name):
+                    kinds["beyond"] = n
+    if set(kinds) == {"negative", "beyond"}:
+        steps.append("oov-mask=(hyp<0)|(hyp>=num_classes)")
+
+    def from_oov(e):
+        ns = list(rd.derives(e).nodes())
+        return all(any(x is c for x in ns) or any(x is c for x in ast.walk(e)) for c in kinds.values()) if kinds else False
+    # a sequence-length mask or-ed in (padded kernel with eos)
+    if any(isinstance(n, ast.BinOp) and isinstance(n.op, ast.BitOr) and any(
+            isinstance(c, ast.Call) and call_name(c).endswith("_lens_from_eos") for c in rd.derives(n).calls()) for n in own_nodes(f.node)):
+        steps.append("mask|=len-mask")
+    fills = [c for c in calls if isinstance(c.func, ast.Attribute) and c.func.attr == "masked_fill" and len(c.args) == 2]
+    gath = [c for c in calls if isinstance(c.func, ast.Attribute) and c.func.attr == "gather" and len(c.args) == 2]
+    # index := 0 under the mask: a masked_fill(oov-derived mask, 0) of the tokens that reaches a gather index
+    idx_fill = [c for c in fills if u(c.args[1]) == "0" and from_oov(c.args[0]) and any(
+        isinstance(x, ast.Name) and x.id == tok for x in ast.walk(c.func.value))]
+    if idx_fill and any(any(x is idx_fill[0] for x in rd.derives(g.args[1]).nodes()) or any(x is idx_fill[0] for x in ast.walk(g.args[1])) for g in gath):
+        steps.append("index:=0 under mask")
+    if gath and any(any(isinstance(x, ast.Name) and x.id == tok for x in rd.derives(g.args[1]).nodes()) or tok in u(g.args[1]) for g in gath):
+        steps.append("gather(hyp)")
+    # the fill of the gathered scores
+    for c in fills:
+        if c in idx_fill:
+            continue
+        recv_calls = list(rd.derives(c.func.value).calls()) + [x for x in ast.walk(c.func.value) if isinstance(x, ast.Call)]
+        if any(x is g for g in gath for x in recv_calls) and from_oov(c.args[0]):
+            steps.append(f"fill({u(c.args[1])})")
+    red = [c.func.attr for c in calls if isinstance(c.func, ast.Attribute) and c.func.attr in ("sum", "prod", "mean")
            and not (isinstance(c.func.value, ast.Call) and "to(" in u(c.func.value))]
     return steps, red
 
@@ -92,8 +118,13 @@ def run(ctx: Ctx):
     rwa = pkg.func(f"{MOD}::random_walk_advance")
     rdw = ReachingDefs(rw.node)
     calls = [n for n in own_nodes(rw.node) if isinstance(n, ast.Assign) and isinstance(n.value, ast.Call) and call_name(n.value) == rwa.name]
-    if len(calls) != 1:
-        raise AnalysisError("C07: RandomWalk.forward does not call random_walk_advance exactly once")
+    if not calls:
+        raise AnalysisError("C07: RandomWalk.forward does not call random_walk_advance")
+    # (the call may be duplicated into the two arms of the eos test: all copies must be the same call)
+    same = len({(u(c.value), u(c.targets[0])) for c in calls}) == 1
+    col.ob("G2", "S1", f"{rel}::RandomWalk.forward::one-advance-per-step", same,
+           f"the step function is called in {len(calls)} different ways in one step: {[u(c)[:70] for c in calls]}", rel, calls[0].lineno,
+           nontrivial=False)
     asg = calls[0]
     got = {p.name: a for p, a, _ in bind_args(asg.value, rwa, False).pairs}
     tg = [u(t) for t in asg.targets[0].elts] if isinstance(asg.targets[0], ast.Tuple) else []
